@@ -65,7 +65,18 @@ def residualSites : List String := [
   "entry.burned.checked_add(burned).unwrap()",
   "id_to_entry.get(rune_id).unwrap()"]
 
-abbrev R := residualSites
+/-- the residual sites of the rune updater (all three are C08 supply conservation) -/
+def runeResidualSites : List String := [
+  "lot overflow",
+  "entry.burned.checked_add(burned).unwrap()",
+  "id_to_entry.get(rune_id).unwrap()"]
+
+abbrev R := runeResidualSites
+
+theorem runeResidual_subset : ∀ s ∈ runeResidualSites, s ∈ residualSites := by
+  intro s hs
+  simp only [runeResidualSites, List.mem_cons, List.not_mem_nil, or_false] at hs
+  rcases hs with rfl | rfl | rfl <;> simp [residualSites]
 
 instance instLawfulBEqRuneIdC16 : LawfulBEq RuneId where
   eq_of_beq {a b} h := by
@@ -83,7 +94,7 @@ theorem addLot_within (m : Balances) (id : RuneId) (a : Nat) : Within R (addLot 
   simp only [addLot]
   split
   · trivial
-  · simp [WithinP, residualSites]
+  · simp [WithinP, runeResidualSites]
 
 /-- an input cannot make `tx_commits_to_rune` fail: it carries no tapscript push at all, or the
 node knows the confirmation height of the output it spends and that is not in the future -/
@@ -347,9 +358,9 @@ theorem flushBurned_within (bb : Balances) (st : State) : Within R (flushBurned 
     obtain ⟨id, b⟩ := p
     simp only [flushBurned]
     split
-    · simp [WithinP, residualSites]
+    · simp [WithinP, runeResidualSites]
     · split
-      · simp [WithinP, residualSites]
+      · simp [WithinP, runeResidualSites]
       · exact ih _
 
 /-! ### `indexRunesTx`, decomposed into its phases (definitionally the same function) -/
